@@ -13,9 +13,6 @@ def caps(pre, pmode, maxgrow):
     return {'PRECAP': max(precap, 1), 'ECAP': max(ecap, 1), 'PAD': seg_base(seg_of(last))}
 def sc2(pre, pmode, maxgrow, **kw):
     d = {'PRE': pre, 'PMODE': pmode}; d.update(caps(pre, pmode, maxgrow)); d.update(kw); return d
-def thr2(a, b):
-    if a == b: return {'vp_thr_' + a: ['a', 'b']}
-    return {'vp_thr_' + a: ['a'], 'vp_thr_' + b: ['b']}
 # cuts: spin_wait_while_eq (generic busy-wait utility of _utils.h) -> contract stub that parks the thread until the location
 # differs (VP_BLOCK); in the "no table" units every index stays below the embedded-table limit (8), so
 # extend_table_if_necessary (a no-op there by its first condition) and allocate_long_table are cut to stubs asserting that
@@ -24,7 +21,6 @@ NT_CUT = SPIN_CUT + ['allocate_long_table', '25extend_table_if_necessaryERPSt6at
 UNITS = {
   'seg': dict(wrapper='w_seg.cpp', mode='seq', selftest=True, cut=['13internal_growI']),
 }
-UNITS['seqg'] = dict(wrapper='w_grow.cpp', mode='seq', cut=SPIN_CUT)
 KIND = {'gb': 0, 'pb': 1, 'gtal': 2}
 def unit(kinds, table, K=None):
     """thread unit for a tuple of operation kinds; table=False: scenarios stay below index 8 (NT_CUT), True: real table extension"""
@@ -41,32 +37,30 @@ def grow(name, kinds, table, rounds, scen, tiers=('quick', 'thorough'), timeout=
         d['T' + sfx[i].upper()] = 'vp_thr_%s_%s' % (k, sfx[i]); d['K' + sfx[i].upper()] = KIND[k]
     if not table: d['NOLONG'] = 1
     h = dict(name=name, unit=unit(kinds, table, K), harness='h_grow.c', defines=d, scenarios=scen, tiers=list(tiers), timeout=timeout,
-             cbmc=['--unwind', '66', '--object-bits', '10'], mem_gb=8,
+             cbmc=['--unwind', '66', '--object-bits', '10'], mem_gb=8, native_cflags=['-fno-sanitize=null'],
              desc='%s on one vector, %d free round-robin rounds + 2 forced rounds; %s' % (' || '.join(kinds), rounds,
                   'indices stay below the embedded-table limit' if not table else 'crossing the embedded-table limit (real extend_table_if_necessary / allocate_long_table)'),
-             bounds={'threads': len(kinds), 'free_rounds': rounds, 'forced_rounds': 2, 'unroll': 1, 'delta': '0..3 symbolic', 'pre-grown sizes': sorted(set(x['PRE'] for x in scen))})
+             bounds={'threads': len(kinds), 'free_rounds': rounds if 'scenarios_thorough' not in kw else '%d quick / 3 thorough' % rounds, 'forced_rounds': 2,
+                     'llvm_unroll': K or (4 if table else 1), 'grow_by delta': ('1..3' if any(x.get('MIND') for x in scen) else '0..3') + ' symbolic' if 'gb' in kinds else 'n/a',
+                     'grow_to_at_least n': 'max(PRE-1,0)..PRE+3 symbolic' if 'gtal' in kinds else 'n/a',
+                     'pre-grown (size, mode 0=push_backs 1=one grow_by)': sorted(set((x['PRE'], x['PMODE']) for x in scen))})
+    if len(kinds) == 1: h['desc'] = 'one thread alone (no interleaving): ' + kinds[0] + ' after a sequential pre-growth, real table extension; loops unrolled by LLVM, symbolic delta'
     h.update(kw)
     return h
 HARNESSES = [
-  dict(name='seg_arith', unit='seg', harness='h_seg.c', scenarios=[{'PART': k} for k in (1, 2, 3, 4)], cbmc=['--unwind', '4'],
-       desc='segment_index_of/segment_base/segment_size for every 64-bit index', bounds={'index': 'all 2^64'}),
-  dict(name='iter_step', unit='seg', harness='h_seg.c', scenarios=[{'PART': 6}], cbmc=['--unwind', '4'],
-       desc='vector_iterator ++/-- with a cached element pointer', bounds={'index': 'all 2^64'}),
-  dict(name='gtal_claim', unit='seg', harness='h_seg.c', scenarios=[{'PART': 5}], cbmc=['--unwind', '70'],
-       desc='grow_to_at_least range claim', bounds={'size,n': '0..2^63'}),
+  dict(name='seg_arith', unit='seg', harness='h_seg.c', scenarios=[{'PART': k} for k in (1, 2, 3, 4)], cbmc=['--unwind', '4'], timeout=300,
+       desc='segment_index_of/segment_base/segment_size/is_first_element_in_segment/number_of_elements_in_segment at full width: PART1 every index lies in its segment, k<64; PART2 segments tile [0,2^64) without gap/overlap, round trip, monotone; PART3 first-block and embedded-table formulas; PART4 elements per segment for every size',
+       bounds={'index/size': 'all 2^64 values', 'segment': '0..63 (PART4: 0..62)', 'loops': 'none'}),
+  dict(name='iter_step', unit='seg', harness='h_seg.c', scenarios=[{'PART': 6}], cbmc=['--unwind', '4'], timeout=300,
+       desc='vector_iterator operator++/-- with a cached element pointer (as returned by push_back/grow_by): the cache survives a step only inside one segment',
+       bounds={'index': 'all 2^64 values'}),
+  dict(name='gtal_claim', unit='seg', harness='h_seg.c', scenarios=[{'PART': 5}], cbmc=['--unwind', '70'], timeout=900,
+       desc='internal_grow_to_at_least from any claimed size: size<n => exactly one internal_grow(size,n) and size becomes n, else no claim (internal_grow cut to a recorder, pre-state with every segment < 63 allocated)',
+       bounds={'size, n': 'every value 0..2^63', 'cut': 'internal_grow'}),
 ]
-def seqops(name, ops, maxd, pres, **kw):
-    d = {'SEQ': 1, 'NT': len(ops), 'MAXD': maxd, 'memset': 'vp_memset', 'PRECAP': 64, 'ECAP': 1, 'EPT': 6, 'PMODE': 0}
-    for i, k in enumerate(ops): d['K' + 'ABC'[i]] = KIND[k]
-    h = dict(name=name, unit='seqg', harness='h_grow.c', defines=d, scenarios=[{'PRE': p} for p in pres], cbmc=['--unwind', '66', '--object-bits', '10'], timeout=900,
-             desc='single thread: %s with symbolic deltas 0..%d / n; addresses stable after every call, ranges tile, values, destructor releases everything' % (', '.join(ops), maxd),
-             bounds={'operations': list(ops), 'delta': '0..%d' % maxd, 'pre-grown sizes': list(pres)})
-    d.update(kw.pop('defines_extra', {}))
-    h.update(kw); return h
 HARNESSES += [
   grow('single_gb', ('gb',), True, 0, [sc2(p, m, 3, MIND=1, TABW=8, PROBE=0) for p, m in ((6, 0), (7, 1))], K=3, tiers=('thorough',), timeout=3600),
   grow('single_pb', ('pb',), True, 0, [sc2(p, m, 1, TABW=8, PROBE=0) for p, m in ((7, 0), (7, 1), (8, 0), (8, 1))], K=4),
-  #seqops('seq_gb_gb', ('gb', 'gb'), 5, (0, 3, 6), defines_extra={'MIND': 1, 'TABW': 8, 'NODESTROY': 1}, cbmc=['--unwind', '20', '--unwindset', 'vp_memset.0:66,vp_memset.1:66', '--object-bits', '10']),
 ] + [grow('pb2_p%d' % p, ('pb', 'pb'), False, 2, [sc2(p, 0, 2, **({'PROBE': 0} if p else {}))], scenarios_thorough=[sc2(p, 0, 2, ROUNDS=3, **({'PROBE': 0} if p else {}))], timeout=1800) for p in (0, 1, 2, 3)] + [
   grow('pb3', ('pb', 'pb', 'pb'), False, 1, [sc2(p, 0, 3, **({'PROBE': 0} if p else {})) for p in (0, 1, 2)], tiers=('thorough',), timeout=3600),
   grow('gb_gb', ('gb', 'gb'), False, 1, [sc2(p, 0, 6, **({'PROBE': 0} if p else {})) for p in (0, 2)], tiers=('thorough',), timeout=3600),
